@@ -865,7 +865,13 @@ def c19_docs(tokens, rng=None, two_token=None, lists=20):
     for d in descs:
         for suffix in ("", ".", ".*"):
             probes.append(([d], ".".join(d) + suffix))
+    # repeated insignificant suffixes (the reader strips them until nothing changes)
+    for d in descs[:len(tokens)]:
+        for suffix in ("..", ".*.*", ".*.", "..*", ".*.*."):
+            probes.append(([d], ".".join(d) + suffix))
     probes.append(([["*"]], "*"))
+    for w in ("*.*", "*.", "*.*.", "*.."):
+        probes.append(([["*"]], w))
     r = rng or random.Random(0)
     # every ordered pair of single-token descriptors (an earlier descriptor may be a character prefix of a token
     # that a later descriptor matches as a whole)
